@@ -147,4 +147,94 @@ theorem filterQuery_insert_lang (host : Option Str) (xs ys : List Str) (it : Str
       · exact Or.inr (Or.inr h)
     rw [filterQuery_parts fpOpts host _ hb hamp2 hq2]
 
+/-- with `strip_trailing_slash` on, whether the query is empty does not matter to the path -/
+theorem normPath_query_irrelevant (path fragment q1 q2 : Str) :
+    normPath fpOpts path fragment q1 = normPath fpOpts path fragment q2 := by
+  unfold normPath
+  generalize pathSteps fpOpts path = x
+  have hr : rstripChars ['/'] ['/'] = [] := by decide
+  have he : endsWith ([] : Str) ['/'] = false := by decide
+  have he1 : endsWith ['/'] ['/'] = true := by decide
+  by_cases hx : x = ['/']
+  · subst hx
+    by_cases hf : fragment = [] <;> by_cases h1 : q1 = [] <;> by_cases h2 : q2 = [] <;>
+      simp [hf, h1, h2, hr, he, he1, fpOpts]
+  · simp [hx]
+
+theorem join_eq_nil_parts (parts : List Str) (hne : parts ≠ []) (h : join ['&'] parts = []) :
+    parts = [[]] := by
+  cases parts with
+  | nil => exact absurd rfl hne
+  | cons p ps =>
+    cases ps with
+    | nil => simp only [join] at h; rw [h]
+    | cons q qs => simp [join] at h
+
+theorem sortQsl_single (e : QItem) : sortQsl [e] = [e] := by simp [sortQsl, insertItem]
+
+/-- the serialized query `normalize_url` returns, from the kept items -/
+def queryOut (host : Option Str) (q : Str) : Str :=
+  safeSerializeQsl (unquoteQsl (filterQuery fpOpts host q))
+
+theorem queryOut_single_empty (host : Option Str) (it : Str)
+    (hamp : '&' ∉ it) (hkey : itemKey it = "gl".toList ∨ itemKey it = "hl".toList)
+    (parts : List Str) (hp : parts = [[], it] ∨ parts = [it, []]) :
+    queryOut host (join ['&'] parts) = [] := by
+  have hit : it ≠ [] := by
+    intro e; subst e
+    rcases hkey with h | h <;> revert h <;> decide
+  have hne : parts ≠ [] := by rcases hp with h | h <;> simp [h]
+  have hq : join ['&'] parts ≠ [] := by rcases hp with h | h <;> simp [h, join]
+  have ha : ∀ x ∈ parts, '&' ∉ x := by
+    intro x hx
+    have hx' : x = [] ∨ x = it := by
+      rcases hp with h | h
+      · rw [h] at hx; simpa using hx
+      · rw [h] at hx
+        simp only [List.mem_cons, List.not_mem_nil, or_false] at hx
+        exact hx.symm
+    rcases hx' with e | e
+    · rw [e]; simp
+    · rw [e]; exact hamp
+  have hk : keptOf fpOpts host parts = keptOf fpOpts host [[]] := by
+    rcases hp with h | h
+    · rw [h]; exact keptOf_insert_lang host [[]] [] it hkey
+    · rw [h]; exact keptOf_insert_lang host [] [[]] it hkey
+  have hu : unquoteQueryItem [] = [] := by decide
+  unfold queryOut
+  rw [filterQuery_parts fpOpts host parts hne ha hq, hk]
+  simp only [fpOpts, if_true, keptOf, unquoteQsl, cutFirst, List.map_cons, List.map_nil, hu, lower,
+    Option.map_none, List.filter_cons, List.filter_nil]
+  split <;> simp [sortQsl, insertItem, safeSerializeQsl, join, hu]
+
+/-- **the serialized query does not see an inserted `gl` / `hl` item**, at any position and
+whatever the other items are (an empty base query included) -/
+theorem queryOut_insert_lang (host : Option Str) (xs ys : List Str) (it : Str)
+    (hamp : ∀ x ∈ xs ++ it :: ys, '&' ∉ x)
+    (hkey : itemKey it = "gl".toList ∨ itemKey it = "hl".toList) :
+    queryOut host (join ['&'] (xs ++ it :: ys)) = queryOut host (join ['&'] (xs ++ ys)) := by
+  by_cases hb : join ['&'] (xs ++ ys) = [] → xs ++ ys = []
+  · unfold queryOut
+    rw [filterQuery_insert_lang host xs ys it hamp hkey hb]
+  · have hj : join ['&'] (xs ++ ys) = [] := by
+      by_cases h : join ['&'] (xs ++ ys) = []
+      · exact h
+      · exact absurd (fun e => absurd e h) hb
+    have hne : xs ++ ys ≠ [] := fun e => hb (fun _ => e)
+    have hparts := join_eq_nil_parts _ hne hj
+    have hitamp : '&' ∉ it := hamp it (by simp)
+    have hcases : (xs = [[]] ∧ ys = []) ∨ (xs = [] ∧ ys = [[]]) := by
+      cases xs with
+      | nil => right; exact ⟨rfl, by simpa using hparts⟩
+      | cons a as =>
+        left
+        simp only [List.cons_append, List.cons.injEq] at hparts
+        have : as = [] ∧ ys = [] := List.append_eq_nil_iff.1 hparts.2
+        exact ⟨by rw [hparts.1, this.1], this.2⟩
+    have hL : queryOut host (join ['&'] (xs ++ it :: ys)) = [] := by
+      apply queryOut_single_empty host it hitamp hkey
+      rcases hcases with ⟨h1, h2⟩ | ⟨h1, h2⟩ <;> simp [h1, h2]
+    rw [hL, hj]
+    simp [queryOut, filterQuery, unquoteQsl, safeSerializeQsl, join]
+
 end Ural.Fingerprint
